@@ -1,6 +1,7 @@
 from __future__ import annotations
 
 import ast
+import copy
 import builtins
 import collections
 import dataclasses
@@ -1383,6 +1384,14 @@ def compile_template(
             for name in re.findall(r"\{\{\.{3}\+\}\}", source)
     },}
     for name, template in wildcards.items():
+        if isinstance(template, ast.AST):
+            # The transformer below rebuilds nodes in place. These ones are likely part of a
+            # tree that is someone else's, the cached one of core.parse for example.
+            try:
+                template = copy.deepcopy(template)
+            except TypeError:  # Wildcards inside it
+                pass
+
         if name not in tmp_wildcards:
             tmp_wildcards[name] = template
         elif isinstance(tmp_wildcards[name], ZeroOrOne):
